@@ -10,7 +10,7 @@ from ..ref import wire
 from ..alphabet import peer_caps, simple_update, PEER_ID
 
 PROP = 'C03'
-HOLDS = (0, 3, 4, 9, 30, 90, 180, 65535)
+HOLDS = (0, 3, 4, 5, 9, 30, 90, 180, 65535)         # (all three residues modulo 3: 3, 4, 5)
 EPS = 1e-6
 REQ = {'@send': ('POST', '/v1/peer/<ip>/send/update',
                  {'attr': {'1': 0, '2': [[2, [65001]]], '3': '10.0.0.1'}, 'nlri': ['10.9.0.0/16']}),
@@ -18,6 +18,9 @@ REQ = {'@send': ('POST', '/v1/peer/<ip>/send/update',
        '@sendbig': ('POST', '/v1/peer/<ip>/send/update',
                     {'attr': {'1': 0, '2': [[2, [65001]]], '3': '10.0.0.1'}, 'nlri': ['10.%d.%d.0/24' % (i // 256, i % 256) for i in range(700)]}),
        # requests the application got wrong, waiting in the handler's queue for the next KEEPALIVE (which must still count)
+       # a request the encoder refuses (NEXT_HOP that is no address): nothing is written, nothing may move
+       '@sendbad': ('POST', '/v1/peer/<ip>/send/update',
+                    {'attr': {'1': 0, '2': [[2, [65001]]], '3': 'not-an-ip'}, 'nlri': ['10.9.0.0/16']}),
        '@mq:bad': {'type': 'notification', 'msg': {'error': 6, 'sub_error': 256, 'data': b''}},
        '@mq:bad2': {'type': 'update', 'msg': {'attr': {1: 0, 2: [(2, [65001])], 3: '10.0.0.1'}, 'nlri': [12345]}}}
 
@@ -124,9 +127,15 @@ def explore_schedule(hc, hp, base, steps, stats, out):
                 r.do(('TICK', 0))
                 continue
             if target > w.sim.now + EPS:
-                r.do(('WAIT', round(target - w.sim.now, 6)))
+                dt = round(target - w.sim.now, 6)
+                if due and w.sim.now + dt > due[0].time:
+                    dt = due[0].time - w.sim.now          # (a gap of H/3 with H not a multiple of 3: never step over the deadline it lands on)
+                r.do(('WAIT', dt))
             if msg in ('SEND', 'SENDBIG'):
                 r.do(('REST', 'send' if msg == 'SEND' else 'sendbig'))
+                r.sends.append(w.sim.now)
+            elif msg == 'SENDBAD':
+                r.do(('REST', 'sendbad'))
                 r.sends.append(w.sim.now)
             elif msg in ('MQBAD', 'MQBAD2'):
                 r.do(('MQ', 'bad' if msg == 'MQBAD' else 'bad2'))
@@ -221,7 +230,7 @@ def check_run(r, done_steps, base):
 
 
 def schedules(H, depth, base, with_send):
-    msgs = ['KA', 'UPD'] + (['SEND', 'SENDBIG', 'MQBAD', 'MQBAD2'] if with_send is True else ['EOR'] if with_send == 'eor' else [])
+    msgs = ['KA', 'UPD'] + (['SEND', 'SENDBIG', 'SENDBAD', 'MQBAD', 'MQBAD2'] if with_send is True else ['EOR'] if with_send == 'eor' else [])
     g = gaps_for(H)
     out = [()]
     for n in range(1, depth + 1):
